@@ -63,7 +63,16 @@ def check (c : Ctx) (r : Run) : Verdict :=
           let cls := if cls0 == "plain" && !natural then "explicit-attrs" else cls0
           some s!"s;{s.name};{cls};{l.2.1};{stride};{natList l.1};{natList (nb.map (·.offset))};{t.laySize};{l.2.2}"
       | _, _ => some s!"s;{s.name};no-such-struct;0;0;;;0"
-    { corr := corr, spec := .skip "measured by the batch harness", tags := tags }
+    -- "any emitted host-shareable struct" can be written through encase only if it derives encase's trait
+    let gvt := globalVariableTypes m
+    let notWritable := o.structs.filter fun s =>
+      match (indexed m.types).find? (fun ht => structNameOf ht == some s.name) with
+      | some (h, _) => r.opts.encase && gvt.contains h && !s.derives.contains "encase::ShaderType"
+      | none => false
+    let spec : Status := match notWritable with
+      | s :: _ => .fail s!"encase#not-writable: host-shareable struct {s.name} does not derive encase::ShaderType although the encase switch is on (derives {s.derives})"
+      | [] => .skip "measured by the batch harness"
+    { corr := corr, spec := spec, tags := tags }
   | _, _ => { corr := corr, spec := .skip "no-output" }
 
 end CheckC10
